@@ -100,6 +100,16 @@ def gen_recipe(rng, name: str, want: dict | None = None) -> dict:
         cchoices.append({"name": "e", "scale": "lin", "start": 0.0, "stop": round(rng.uniform(0.8, 1.6), 3), "n": en})
     rng.shuffle(cchoices)
 
+    # ---- second continuous state (two-dimensional interpolation of the continuation value) ------
+    cstate2 = None
+    if has_a and pick("cstate2", 0.3):
+        bscale = rng.choice(["lin", "lin", "log"])
+        bstart = round(rng.uniform(0.5, 2.0), 3)
+        cstate2 = {
+            "name": "b", "scale": bscale, "start": bstart, "stop": round(bstart + rng.uniform(2.0, 5.0), 3),
+            "n": rng.randint(3, 5), "trans": rng.choice(["keep", "bdrift", "bmix"]),
+        }
+
     # ---- discrete states -----------------------------------------------------------
     dstates = []
     force_pair = use_filter and rng.random() < 0.4  # two filter-restricted states (l, h)
@@ -197,8 +207,12 @@ def gen_recipe(rng, name: str, want: dict | None = None) -> dict:
     coef["page"] = _gen_coef(rng, 0.02, 0.08)
     coef["y"] = rng.uniform(0.05, 0.6)
     coef["sdir"] = _gen_coef(rng, 0.011, 0.037)
+    if cstate2:
+        coef["gb"] = rng.uniform(0.2, 0.8)
+        coef["xab"] = _gen_coef(rng, 0.05, 0.3)
+        coef["yb"] = rng.uniform(0.05, 0.5)
 
-    states_order = [d["name"] for d in dstates] + (["a"] if cstate else [])
+    states_order = [d["name"] for d in dstates] + (["a"] if cstate else []) + (["b"] if cstate2 else [])
     rng.shuffle(states_order)
     choices_order = [c["name"] for c in dchoices] + [c["name"] for c in cchoices]
     rng.shuffle(choices_order)
@@ -208,6 +222,7 @@ def gen_recipe(rng, name: str, want: dict | None = None) -> dict:
         "n_periods": n_periods,
         "dstates": dstates,
         "cstate": cstate,
+        "cstate2": cstate2,
         "dchoices": dchoices,
         "cchoices": cchoices,
         "filter": filt,
@@ -325,6 +340,8 @@ def render(recipe: dict) -> tuple[str, dict]:
     elif has_a:
         uparams += ["g"]
         body.append("u = u + g * xp.log(1.0 + a)")
+    if recipe.get("cstate2"):
+        body.append(f"u = u + {_lit(c['gb'])} * xp.log(1.0 + b) + {_lit(c['xab'])} * a * b / (1.0 + a + b)")
     for v in ds + dc:
         body.append(f"u = u + {_lit(c['c1_' + v])} * {v} + {_lit(c['c2_' + v])} * {v} * {v}")
     for d in ds:
@@ -370,6 +387,21 @@ def render(recipe: dict) -> tuple[str, dict]:
                 args.append("income")
                 expr += " + 0.5 * income"
             add("next_a", args, ["r"], [f"return xp.clip({expr}, {_lit(lo)}, {_lit(hi)})"])
+    if recipe.get("cstate2"):
+        cb = recipe["cstate2"]
+        lo_b = cb["start"]
+        hi_b = cb["stop"] if cb["scale"] == "log" else round(cb["stop"] * 1.15, 6)
+        if cb["trans"] == "keep":
+            add("next_b", ["b"], [], ["return b"])
+        elif cb["trans"] == "bdrift":
+            args = ["b"]
+            expr = f"0.7 * b + {_lit(c['yb'])}"
+            if first_dc:
+                args.append(first_dc)
+                expr += f" + 0.2 * {first_dc}"
+            add("next_b", args, [], [f"return xp.clip({expr}, {_lit(lo_b)}, {_lit(hi_b)})"])
+        else:  # bmix
+            add("next_b", ["b", "a"], [], [f"return xp.clip(0.5 * b + 0.1 * a + {_lit(c['yb'])}, {_lit(lo_b)}, {_lit(hi_b)})"])
     pair = recipe["filter"] if (recipe["filter"] and recipe["filter"]["kind"] == "pair") else None
 
     def add_next(name, args, params, body_expr):
@@ -508,6 +540,8 @@ def build_model(recipe: dict, fns: dict, lcm_mod):
     for nm in recipe["states_order"]:
         if nm == "a":
             states[nm] = cgrid(recipe["cstate"])
+        elif nm == "b":
+            states[nm] = cgrid(recipe["cstate2"])
         else:
             states[nm] = dgrid(nm, _dstate(recipe, nm)["n"])
     choices = {}
@@ -632,6 +666,15 @@ def gen_agent(rng, recipe: dict, on_grid_bias: float = 0.4) -> dict:
             ag["a"] = ["v", round(rng.uniform(cs["start"], cs["stop"]), 6)]
         else:  # beyond the last grid point: legal on linear grids (extrapolated)
             ag["a"] = ["v", round(rng.uniform(cs["stop"], cs["stop"] * 1.3), 6)]
+    cb = recipe.get("cstate2")
+    if cb:
+        u = rng.random()
+        if u < max(on_grid_bias, 0.5):
+            ag["b"] = ["n", rng.randrange(cb["n"])]
+        elif u < 0.93 or cb["scale"] == "log":
+            ag["b"] = ["v", round(rng.uniform(cb["start"], cb["stop"]), 6)]
+        else:
+            ag["b"] = ["v", round(rng.uniform(cb["stop"], cb["stop"] * 1.2), 6)]
     return ag
 
 
@@ -687,7 +730,15 @@ def perturb_params(rng, recipe: dict, meta: dict, base: dict, sparsity: float = 
     return out
 
 
-def fd_neighbour_params(rng, recipe: dict, meta: dict, base: dict) -> dict:
+def fd_leaves(meta: dict) -> list:
+    out = [("beta",)]
+    for fn in meta["functions"]:
+        for pn in meta["fn_params"][fn]:
+            out.append((fn, pn))
+    return out
+
+
+def fd_neighbour_params(rng, recipe: dict, meta: dict, base: dict, leaf=None, step=None) -> dict:
     """A finite-difference neighbour of ``base``: ONE scalar leaf moved by a relative step of
     1e-7..1e-5 (what a numerical optimiser does thousands of times between two calls).  A result
     served from anything keyed by rounded / single-precision / 'close enough' parameter values is
@@ -699,8 +750,8 @@ def fd_neighbour_params(rng, recipe: dict, meta: dict, base: dict) -> dict:
     for fn in meta["functions"]:
         for pn in meta["fn_params"][fn]:
             leaves.append((fn, pn))
-    lf = rng.choice(leaves)
-    step = rng.choice([1e-7, -1e-7, 1e-6, 1e-5, -1e-5])
+    lf = tuple(leaf) if leaf is not None else rng.choice(leaves)
+    step = step if step is not None else rng.choice([1e-7, -1e-7, 1e-6, 1e-5, -1e-5])
     if lf == ("beta",):
         out["beta"] = min(0.999, base["beta"] * (1.0 + step))
     else:
@@ -716,14 +767,21 @@ def sibling_recipe(rng, recipe: dict, name: str) -> dict:
 
     r = copy.deepcopy(recipe)
     r["name"] = name
-    opts = ["coef", "periods", "func_order"]
+    opts = ["coef", "coef", "periods", "func_order"]
     if r["cstate"]:
-        opts += ["a_scale", "a_scale", "a_scale", "a_scale", "a_n"]
+        opts += ["a_scale", "a_scale", "a_scale", "a_n", "a_range", "a_range"]
+    if r.get("cstate2"):
+        opts += ["b_scale", "b_range"]
     if any(c["name"] == "e" for c in r["cchoices"]):
         opts.append("e_n")
     if r["filter"]:
-        opts.append("filter_step")
+        opts += ["filter_step"] * 3
+    ld = next((d for d in r["dstates"] if d["name"] == "l" and d["trans"]["kind"] == "det"), None)
+    if ld is not None:
+        opts += ["trans_rule"] * 2
     what = rng.choice(opts)
+    if r["filter"] and rng.random() < 0.35:
+        what = "filter_step"  # the admissible-choice rule is what two specifications typically differ in
     if what == "coef":
         k = rng.choice(sorted(r["coef"]))
         r["coef"][k] = r["coef"][k] * rng.uniform(0.5, 1.5) + 0.01
@@ -758,6 +816,26 @@ def sibling_recipe(rng, recipe: dict, name: str) -> dict:
                 c["n"] = c["n"] + 1
     elif what == "filter_step":
         r["filter"]["step"] = 1 if r["filter"].get("step", 1) != 1 else 2
+    elif what == "a_range":
+        # same number of points, another range (a robustness check of the grid)
+        cs = r["cstate"]
+        cs["stop"] = round(cs["stop"] * rng.choice([0.8, 1.25]), 3)
+        for c in r["cchoices"]:
+            if c["name"] == "s" and cs["trans"] == "node":
+                c["stop"] = cs["stop"]
+    elif what == "b_scale":
+        r["cstate2"]["scale"] = "log" if r["cstate2"]["scale"] == "lin" else "lin"
+    elif what == "b_range":
+        r["cstate2"]["stop"] = round(r["cstate2"]["stop"] * rng.choice([0.8, 1.25]), 3)
+    elif what == "trans_rule":
+        # the same function name (next_l) with another body
+        if r["filter"]:
+            rules = ["copy", "absorb", "keep", "age"]
+        elif r["dchoices"]:
+            rules = ["copy", "absorb", "cycle", "age", "keep"]
+        else:
+            rules = ["age", "keep", "cycle0"]
+        ld["trans"]["rule"] = rng.choice([x for x in rules if x != ld["trans"]["rule"]])
     r["sibling_of"] = recipe["name"]
     r["sibling_change"] = what
     return r
